@@ -569,6 +569,12 @@ impl ActiveSegment
 		self.base_addr.saturating_add(self.buffer.len() as u32)
 	}
 	
+	/// Number of bytes written to this segment so far (unlike `curr_addr`, never saturated).
+	pub fn len(&self) -> usize
+	{
+		self.buffer.len()
+	}
+	
 	pub fn remaining(&self) -> usize
 	{
 		self.max_len - self.buffer.len()
